@@ -453,7 +453,8 @@ impl ToVecOutside for [u8] {
 }
 
 // ------------------------------------------------------------------------------------------------ generators
-const STR_ATOMS: [&str; 6] = ["a", "B", "\u{e9}", "\u{20ac}", "\u{1F980}", "z"];
+// the last five have continuation bytes at the edges of the continuation range (0x80 / 0xBF)
+const STR_ATOMS: [&str; 11] = ["a", "B", "\u{e9}", "\u{20ac}", "\u{1F980}", "z", "\u{c0}", "\u{2013}", "\u{10000}", "\u{7ff}", "\u{ffff}"];
 fn gen_bytes(rng: &mut Rng, is_str: bool, len: usize) -> Vec<u8> {
     if is_str {
         let mut s = String::new();
@@ -685,6 +686,33 @@ fn utf8_stream<B: Backend>(bk: &str, thorough: bool, sum: &mut Summary, w: &mut 
     for bad in [&[0xC0u8, 0x80][..], &[0xED, 0xA0, 0x80], &[0xF4, 0x90, 0x80, 0x80], &[0xE2, 0x82], &[0xF0, 0x9F, 0xA6], &[0x80]] {
         let carrier = "a\u{e9}\u{20ac}\u{1F980}z".as_bytes();
         for off in 0..=carrier.len() { let mut v = carrier[..off].to_vec(); v.extend_from_slice(bad); v.extend_from_slice(&carrier[off..]); inputs.push(v); }
+    }
+    // boundary sweep: every (start, end) cut, every truncation point and every split point of carriers whose continuation
+    // bytes cover both edges of 0x80..=0xBF, in the three representations
+    for carrier in ["a\u{c0}\u{2013}\u{10000}z", "\u{7ff}\u{ffff}\u{1F980}\u{10ffff}", "\u{e9}\u{20ac}\u{80}\u{800}\u{bf}q, and a tail that makes it long"] {
+        let c = carrier.as_bytes().to_vec();
+        let n = c.len().min(16);
+        for mk in 0..3 {
+            let mut ops: Vec<Op> = vec![match mk { 0 => Op::Borrowed(c.clone()), 1 => Op::FromSlice(c.clone()), _ => Op::FromSlice(c[..n.min(c.len())].to_vec()) }];
+            if mk == 2 && std::str::from_utf8(&c[..n]).is_err() { continue; }
+            let m = n;
+            let mk_op = ops[0].clone();
+            for s in 0..=m { for e in s..=m { if thorough || s + 5 >= e { ops.push(Op::TrySlice(0, Bound::Included(s), Bound::Excluded(e))); } } ops.push(Op::TrySlice(0, Bound::Included(s), Bound::Unbounded)); }
+            let mut src = |p: &Pool<B>, k: usize| -> Option<Op> {
+                if k < ops.len() { return Some(ops[k].clone()); }
+                (0..p.hs.len()).find(|&i| p.hs[i].is_some()).map(Op::Drop)
+            };
+            run_case::<B>(bk, true, &mut src, sum, w, &format!("utf8-boundary-sweep slices mk={}", mk));
+            // handle i+1 is a clone, truncated at i (a refused truncation panics and leaves it unchanged)
+            let mut ops: Vec<Op> = vec![mk_op];
+            for _ in 0..=m { ops.push(Op::Clone(0)); }
+            for i in 0..=m { ops.push(Op::Truncate(i + 1, i)); }
+            let mut src = |p: &Pool<B>, k: usize| -> Option<Op> {
+                if k < ops.len() { return Some(ops[k].clone()); }
+                (0..p.hs.len()).find(|&i| p.hs[i].is_some()).map(Op::Drop)
+            };
+            run_case::<B>(bk, true, &mut src, sum, w, &format!("utf8-boundary-sweep truncations mk={}", mk));
+        }
     }
     for chunk in inputs.chunks(40) {
         let ops: Vec<Op> = chunk.iter().map(|x| Op::FromUtf8(x.clone())).collect();
